@@ -58,6 +58,10 @@ SPEC = {
         'transaction-proof requests are well-typed (height / position non-negative ints, tx hash 32 bytes: C16) and TSC '
         'proofs are requested with txid_or_tx="txid" (with "tx" there is one more await - of the daemon - after the proof '
         'is complete)',
+        'the composed fold statement for HEADER proofs (root_from_proof of the hash at `height` with the returned branch gives the returned root) is not a theorem ("by C12" in a docstring); it exists for transaction proofs only (C11_tx_fold)',
+        'the blockchain.block.header(h, cp) / block.headers(..., cp) RESPONSE AS A WHOLE is not modelled: Req has no header field; raw_header and _merkle_proof are separate awaits in session.py, so a reorganisation forking at or below h that completes between them gives an orphaned header together with a branch for the new chain (the TSC path has a sanity check against exactly this, the header path has none); suites enter at _merkle_proof / judge the header at rest only (code reading, not executed; a likely defect, not recorded as a finding)',
+        'no progress theorem for header requests: Req.Safe is True for .error / .refused / still-active requests, so a model in which every delivery fails satisfies every header theorem; that requests without an overlapping back-out end in an answer is validated by suite headercache only',
+        'the ghost field Req.bo (a back-out overlapped the request) has no soundness lemma of the kind seen_sound gives for Req.seen',
     ],
     'level_text': 'proof (both halves; the transaction-proof half on EV.TxCache: any number of id_from_pos / get_merkle / '
                   'get_tsc_merkle requests, each a program counter over its real awaits incl. the _reorg_count re-read loop, the by-height '
